@@ -41,6 +41,7 @@ class Interp(object):
         self.log_names = ('LOG', 'log', 'logging')
         self.while_unroll = WHILE_UNROLL
         self.merge_loops = False
+        self.unique_opaque_calls = False
         self.max_depth = MAX_DEPTH
         self.loop_hook = None
         self.record_enter = False
@@ -185,9 +186,11 @@ class Interp(object):
                 if hv is not None:
                     return [('val', hv, st)]
             return [('val', ModV(External(b.mod.dotted + '.' + attr)), st)]
+        if isinstance(b, Const) and isinstance(b.value, (str, bytes)) and attr in prims.ConstMethod.SAFE:
+            return [('val', prims.ConstMethod(b.value, attr), st)]
         if isinstance(b, Const) and attr == 'packed':
             return [('val', Opaque(b.desc() + '.packed', 'bytes'), st)]
-        return [('val', Opaque('%s.%s' % (b.desc(), attr)), st)]
+        return [('val', Opaque('%s.%s' % (b.desc(), attr), 'bytes' if attr == 'packed' else None), st)]
 
     def ev_Tuple(self, e, st):
         return bind(self.ev_list(e.elts, st), lambda vs, s: [('val', self.mk_tuple(vs), s)])
@@ -408,7 +411,14 @@ class Interp(object):
         target, _, meth = d.rpartition('.')
         st.actions.append(Action('call', target, meth, args, kwargs, line,
                                  getattr(st.cur_func(), 'qualname', None)))
-        return [('val', Opaque('%s()' % d), st)]
+        kind = 'bytes' if meth in ('encode', 'a2b_hex', 'unhexlify', 'to_bytes', 'join') and \
+            (meth != 'join' or target.startswith("b'")) else None
+        if self.unique_opaque_calls and isinstance(fv, FuncV):
+            st.counter += 1
+            return [('val', Opaque('%s()#%d@%s' % (d, st.counter, line), kind), st)]
+        if meth in ('encode',) and args == [] or meth == 'encode':
+            return [('val', Opaque('%s.encode()' % target, 'bytes'), st)]
+        return [('val', Opaque('%s()' % d, kind), st)]
 
     def instantiate(self, cinfo, args, kwargs, st, line=None):
         o = st.new_obj('inst', cinfo, hint=cinfo.name)
